@@ -228,6 +228,38 @@ func (e *WitEnv) Start() error {
 	return nil
 }
 
+// StartOverlapping starts a further witness process on the same stores WITHOUT
+// retiring the current one (an overlapping restart / a second machine): the
+// returned witness has its own instance and knows the same logs.
+func (e *WitEnv) StartOverlapping(name string, mirror bool) (*witness.Witness, *Inst, error) {
+	in := NewInst(e.W, name)
+	cfg := &witness.Config{Name: e.Name, KeyEd25519: e.Ed, KeyMLDSA44: e.ML, MirrorName: e.MirrorName, KeyMirror: e.MK,
+		Backend: &ObjBackend{In: in}, Lock: &LockBackend{In: in}, Log: discardLogger}
+	w, err := witness.NewWitness(context.Background(), cfg)
+	if err != nil {
+		return nil, nil, err
+	}
+	var b strings.Builder
+	b.WriteString("# generated by the verification harness\nlogs/v0\n\n")
+	for _, l := range e.Logs {
+		fmt.Fprintf(&b, "vkey %s\n", l.VKey)
+	}
+	p := filepath.Join(e.Dir, fmt.Sprintf("list-%s.txt", name))
+	os.WriteFile(p, []byte(b.String()), 0o644)
+	if err := w.PullLogList(context.Background(), p, mirror); err != nil {
+		return nil, nil, err
+	}
+	return w, in, nil
+}
+
+// PostTo is Post against a given witness instance.
+func PostTo(w *witness.Witness, path string, body []byte) *httptest.ResponseRecorder {
+	req := httptest.NewRequest("POST", path, bytes.NewReader(body))
+	rec := httptest.NewRecorder()
+	w.Handler().ServeHTTP(rec, req)
+	return rec
+}
+
 // AddLogs installs logs through the real PullLogList from a generated list file.
 func (e *WitEnv) AddLogs(mirror bool, logs ...*WitLog) error {
 	var b strings.Builder
